@@ -377,3 +377,67 @@ def _synth_a64(pat, pc, pos, variant):
             return "[%s], #16" % base
         return body
     return None
+
+
+# ------------------------------------------------------------------------------------------
+# domain of the pattern fields (a value outside it can never be matched by any instruction)
+
+X86_REG_CLASSES = ("gpr", "xmm", "ymm", "zmm", "mm", "k", WILD)
+A64_PREFIXES = tuple("xwbhsdqvzp") + (WILD,)
+A64_SHAPES = ("b", "h", "s", "d", "q", WILD)
+
+
+def pattern_problem(isa, pat):
+    """None if every field of the operand pattern has a value of its documented domain, else a
+    description of the first field that has not"""
+    if not isinstance(pat, dict) or "class" not in pat:
+        return "operand pattern %r is not a mapping with a class" % (pat,)
+    pc = pat["class"]
+    if pc == "register":
+        if isa == "x86":
+            n = pat.get("name")
+            if not isinstance(n, str):
+                return "register pattern without a name (%r)" % (n,)
+            if n.lower() not in X86_REG_CLASSES and _x86_reg_class(n) == "other":
+                return "register class %r is none of %s" % (n, "/".join(X86_REG_CLASSES))
+            return None
+        p = pat.get("prefix")
+        if not isinstance(p, str) or p.lower() not in A64_PREFIXES:
+            return "register prefix %r is none of %s" % (p, "".join(A64_PREFIXES))
+        sh = pat.get("shape")
+        if sh is not None and str(sh).lower() not in A64_SHAPES:
+            return "register shape %r is none of %s" % (sh, "/".join(A64_SHAPES))
+        return None
+    if pc == "memory":
+        regs = ("gpr", WILD) if isa == "x86" else A64_PREFIXES
+        for f in ("base", "index"):
+            v = pat.get(f)
+            if isinstance(v, dict):
+                v = v.get("name") if isa == "x86" else v.get("prefix")
+            if v is not None and (not isinstance(v, str) or v.lower() not in regs):
+                return "memory %s %r is none of %s" % (f, v, "/".join(regs))
+        v = pat.get("offset")
+        if v is not None and v not in (WILD, "imd", "id"):
+            return "memory offset %r is none of ~, *, imd, id" % (v,)
+        v = pat.get("scale")
+        if v is not None and v != WILD and (isinstance(v, bool) or not isinstance(v, int)):
+            return "memory scale %r is neither an integer nor *" % (v,)
+        for f in ("pre_indexed", "post_indexed"):
+            v = pat.get(f, False)
+            if v is not None and v != WILD and not isinstance(v, bool):
+                return "memory %s %r is neither a boolean nor *" % (f, v)
+        return None
+    if pc == "immediate":
+        v = pat.get("imd")
+        ok = ("int",) if isa == "x86" else ("int", "float", "double", WILD)
+        if v not in ok:
+            return "immediate type %r is none of %s" % (v, "/".join(ok))
+        return None
+    if pc == "condition":
+        v = str(pat.get("ccode", "")).upper()
+        if v != WILD and v not in CCODES:
+            return "condition code %r is not an AArch64 condition" % (pat.get("ccode"),)
+        return None
+    if pc in ("identifier", "prfop"):
+        return None
+    return "operand class %r is unknown" % (pc,)
